@@ -78,6 +78,8 @@ pub fn matches(predicate: &str, v: &Viol) -> bool {
                 s.split_once('\0').map(|(_, rest)| !rest.trim().is_empty()).unwrap_or(false)
             })
         }
+        // C17: the miette adapter hands miette the whole source: lines are shown in full, whatever the radius
+        "c17_miette_not_cropped" => v.clause == "miette-not-cropped",
         _ => false,
     }
 }
